@@ -198,6 +198,7 @@ type profile struct {
 	opsLo      int
 	opsHi      int
 	keysLo     int
+	crowd      int // per mille of runs with 45..80 small keys resident and one newcomer that needs most of them evicted
 	keysHi     int
 	mix        mix
 	capMode    []int // capacity modes to draw from
@@ -263,7 +264,7 @@ func init() {
 	add(&profile{name: "capacity", clientsLo: 1, clientsHi: 4, opsLo: 10, opsHi: 40, keysLo: 6, keysHi: 16,
 		mix:     mix{get: 40, set: 35, setTTL: 3, del: 5, wait: 5, upmax: 2, reads: 3, yield: 2, setRoom: 12, clear: 1},
 		capMode: []int{CapFew, CapFew, CapFew, CapHalf, CapHalf, CapTiny, CapTiny, CapExactly, CapExactly, CapHuge}, bufSmall: 300, collide: 0, strKeys: 100,
-		pClockLo: 0, pClockHi: 20, costFn: 300, metricsPM: 500, epilogue: "std", quiescePM: 60, costMono: 500, starveAppl: 100})
+		pClockLo: 0, pClockHi: 20, costFn: 300, metricsPM: 500, epilogue: "std", quiescePM: 60, costMono: 500, starveAppl: 100, crowd: 60})
 	// C05: deletes racing buffered inserts on a focus key
 	add(&profile{name: "delete", clientsLo: 2, clientsHi: 4, opsLo: 6, opsHi: 25, keysLo: 2, keysHi: 5, focusKeys: 1,
 		mix:     mix{get: 30, set: 30, setTTL: 8, del: 15, wait: 12, yield: 4, clear: 1, upmax: 3},
@@ -335,6 +336,13 @@ func GenPlan(profName string, seed uint64) *Plan {
 	c := &p.Cfg
 
 	nkeys := g.rng(pr.keysLo, pr.keysHi)
+	// "arbitrary non-negative costs": the ratio between one newcomer's cost and
+	// the residents' costs has a far end too - a crowd of small keys and one
+	// admission that needs dozens of them evicted (no draw unless the profile asks)
+	crowd := pr.crowd > 0 && g.p(pr.crowd)
+	if crowd {
+		nkeys = g.rng(45, 80)
+	}
 	c.KeyKind = KeyInt
 	if g.p(pr.strKeys) {
 		c.KeyKind = g.pick([]int{KeyString, KeyBytes, KeyString, KeyBytes, KeyNamedString, KeyNamedBytes})
@@ -519,7 +527,7 @@ func GenPlan(profName string, seed uint64) *Plan {
 	c.ClockOffset = int64(g.n(1<<30)) * int64(g.rng(1, 40))
 
 	// costs: each key has a base cost; cost-monotone runs always use it
-	mono := g.p(pr.costMono)
+	mono := g.p(pr.costMono) && !crowd
 	baseCost := make([]int64, nkeys)
 	unit := int64(g.pick([]int{1, 1, 3, 10, 100}))
 	var sum int64
@@ -539,11 +547,15 @@ func GenPlan(profName string, seed uint64) *Plan {
 		per = 1
 	}
 	capMode := g.pick(pr.capMode)
+	if crowd {
+		capMode = g.pick([]int{CapExactly, CapExactly, CapHalf})
+	}
 	hashDependent := c.Hasher == HashDefault && stringKind(c.KeyKind)
 	if hashDependent {
 		// runtime.memhash is seeded per process: keep every decision independent of hash values
 		capMode = CapAll
 		p.Flags.HashDep = true
+		crowd = false // everything is promised to fit in these runs: no oversized newcomer
 	}
 	switch capMode {
 	case CapTiny:
@@ -727,6 +739,27 @@ func GenPlan(profName string, seed uint64) *Plan {
 			}
 		}
 		p.Clients = append(p.Clients, prog)
+	}
+	if crowd {
+		// prologue of client 0: every key but the last few made resident at its
+		// base cost, drained, then one absent key written with a cost near (or at a
+		// fraction of) MaxCost, drained
+		var pro []Op
+		absent := g.rng(1, 4)
+		for k := 0; k < nkeys-absent; k++ {
+			pro = append(pro, Op{K: OpSet, Key: k, Cost: baseCost[k], FnC: baseCost[k]})
+			if k%16 == 15 {
+				pro = append(pro, Op{K: OpWait})
+			}
+		}
+		pro = append(pro, Op{K: OpWait})
+		big := g.pick64([]int64{c.MaxCost - intern, c.MaxCost - 2*intern, c.MaxCost / 2, c.MaxCost * 3 / 4, c.MaxCost})
+		if big < 1 {
+			big = 1
+		}
+		nk := nkeys - 1 - g.n(absent)
+		pro = append(pro, Op{K: OpSet, Key: nk, Cost: big, FnC: baseCost[nk]}, Op{K: OpWait})
+		p.Clients[0] = append(pro, p.Clients[0]...)
 	}
 	if nclients == 1 && !mono && !p.Flags.AllFits && g.p(600) {
 		// "No overwrite raises a resident key's cost" (the histories in which C03
